@@ -12,6 +12,7 @@ from .callbacks import SpecReference
 from .dispatcher import Listener
 from .dispatcher import Listeners
 from .engines.async_ import AsyncEngine
+from .engines.base import BaseEngine
 from .engines.sync import SyncEngine
 from .event import BoundEvent
 from .event_data import TriggerData
@@ -130,6 +131,10 @@ class StateMachine(metaclass=StateMachineMetaclass):
     def __getstate__(self):
         state = self.__dict__.copy()
         state["_rtc"] = self._engine._rtc
+        # Was the (deferred) initial activation still waiting in the queue?
+        state["_activation_pending"] = any(
+            trigger_data.event == "__initial__" for trigger_data in self._engine._external_queue
+        )
         del state["_callbacks"]
         del state["_states_for_instance"]
         del state["_engine"]
@@ -138,6 +143,7 @@ class StateMachine(metaclass=StateMachineMetaclass):
     def __setstate__(self, state):
         listeners = state.pop("_listeners")
         rtc = state.pop("_rtc")
+        activation_pending = state.pop("_activation_pending", False)
         self.__dict__.update(state)
         self._callbacks = CallbacksRegistry()
         self._states_for_instance: Dict[State, State] = {}
@@ -149,8 +155,10 @@ class StateMachine(metaclass=StateMachineMetaclass):
         self._register_callbacks(list(listeners.keys()))
         self._engine = self._get_engine(rtc)
         # A machine copied before its initial state was activated (async callbacks) still has
-        # to activate it; when the model already holds a state this is a no-op.
-        self._engine.start()
+        # to activate it. The activation is only queued again, as it was on the original: nothing
+        # runs while the copy is being rebuilt (its model may not even be restored yet).
+        if activation_pending:
+            BaseEngine.start(self._engine)
 
     def _get_initial_state(self):
         initial_state_value = (
